@@ -18,6 +18,7 @@ package hooks
 
 import (
 	"fmt"
+	"regexp"
 	"runtime"
 	"strings"
 
@@ -307,3 +308,8 @@ func short(s string) string {
 	}
 	return s
 }
+
+var digits = regexp.MustCompile(`[0-9]+`)
+
+// panicKind = panic text with the numbers blanked (a stable key for known findings).
+func panicKind(s string) string { return digits.ReplaceAllString(s, "N") }
